@@ -326,7 +326,9 @@ def _(r, p):
 
 
 CUSTOM_STATS = {"dbl_sum": lambda z: z.sum() * 2, "rng": lambda z: z.max() - z.min(),
-                "first": lambda z: z[0]}
+                "first": lambda z: z[0],
+                # a user's own statistic that happens to be called like a built-in one
+                "mean": lambda z: z.max() * 1.0}
 
 
 @op("zonal_stats_custom")
